@@ -147,6 +147,7 @@ type world struct {
 	// what the latest RPC event answered (for engines that relay real requests)
 	lastResp interface{}
 	lastErr  error
+	notify   chan bool
 	// an optional transport put around the null transport (the catch-up engine's leader)
 	wrapTrans func(*nullTrans) raft.Transport
 }
@@ -169,6 +170,9 @@ func (w *world) start() (ok bool) {
 	conf.MaxAppendEntries = w.maxAE
 	conf.RestoreCommittedLogs = w.restoreC
 	conf.PreVoteDisabled = w.noPV
+	conf.ShutdownOnRemove = false
+	w.notify = make(chan bool, 256)
+	conf.NotifyCh = w.notify
 	w.trans = &nullTrans{addr: "11", ch: make(chan raft.RPC)}
 	w.c.reset(-1, -1)
 	defer func() {
@@ -442,6 +446,40 @@ func (w *world) apply(e event) string {
 		synctest.Wait()
 		return w.obs(false, fmt.Sprintf("s %d", b2i(err == nil)))
 	}
+	rpc, ch := e.rpc()
+	w.c.reset(e.failAt, e.crashAt)
+	w.lastResp, w.lastErr = nil, nil
+	panicked := func() (p bool) {
+		defer func() {
+			if x := recover(); x != nil {
+				p = true
+			}
+		}()
+		w.r.VerifProcessRPC(rpc)
+		return false
+	}()
+	if panicked {
+		// the process died: whatever was written stays; a new process starts on the stores
+		ops := w.c.ops
+		w.stop()
+		ok := w.start()
+		w.c.ops = ops
+		_ = ok
+		return w.obs(true, "n")
+	}
+	synctest.Wait()
+	resp := "n"
+	select {
+	case rr := <-ch:
+		w.lastResp, w.lastErr = rr.Response, rr.Error
+		resp = respTok(rr)
+	default:
+	}
+	return w.obs(false, resp)
+}
+
+// rpc builds the request of an RPC event
+func (e event) rpc() (raft.RPC, chan raft.RPCResponse) {
 	ch := make(chan raft.RPCResponse, 1)
 	rpc := raft.RPC{RespChan: ch}
 	switch e.kind {
@@ -470,46 +508,24 @@ func (w *world) apply(e event) string {
 	case 'T':
 		rpc.Command = &raft.TimeoutNowRequest{RPCHeader: hdr(0, 0)}
 	}
-	w.c.reset(e.failAt, e.crashAt)
-	w.lastResp, w.lastErr = nil, nil
-	panicked := func() (p bool) {
-		defer func() {
-			if x := recover(); x != nil {
-				p = true
-			}
-		}()
-		w.r.VerifProcessRPC(rpc)
-		return false
-	}()
-	if panicked {
-		// the process died: whatever was written stays; a new process starts on the stores
-		ops := w.c.ops
-		w.stop()
-		ok := w.start()
-		w.c.ops = ops
-		_ = ok
-		return w.obs(true, "n")
-	}
-	synctest.Wait()
+	return rpc, ch
+}
+
+func respTok(rr raft.RPCResponse) string {
 	resp := "n"
-	select {
-	case rr := <-ch:
-		w.lastResp, w.lastErr = rr.Response, rr.Error
-		switch x := rr.Response.(type) {
-		case *raft.RequestVoteResponse:
-			resp = fmt.Sprintf("v %d %d", x.Term, b2i(x.Granted))
-		case *raft.RequestPreVoteResponse:
-			resp = fmt.Sprintf("p %d %d", x.Term, b2i(x.Granted))
-		case *raft.AppendEntriesResponse:
-			resp = fmt.Sprintf("a %d %d %d %d", x.Term, x.LastLog, b2i(x.Success), b2i(x.NoRetryBackoff))
-		case *raft.InstallSnapshotResponse:
-			resp = fmt.Sprintf("i %d %d %d", x.Term, b2i(x.Success), b2i(rr.Error != nil))
-		case *raft.TimeoutNowResponse:
-			resp = "t"
-		}
-	default:
+	switch x := rr.Response.(type) {
+	case *raft.RequestVoteResponse:
+		resp = fmt.Sprintf("v %d %d", x.Term, b2i(x.Granted))
+	case *raft.RequestPreVoteResponse:
+		resp = fmt.Sprintf("p %d %d", x.Term, b2i(x.Granted))
+	case *raft.AppendEntriesResponse:
+		resp = fmt.Sprintf("a %d %d %d %d", x.Term, x.LastLog, b2i(x.Success), b2i(x.NoRetryBackoff))
+	case *raft.InstallSnapshotResponse:
+		resp = fmt.Sprintf("i %d %d %d", x.Term, b2i(x.Success), b2i(rr.Error != nil))
+	case *raft.TimeoutNowResponse:
+		resp = "t"
 	}
-	return w.obs(false, resp)
+	return resp
 }
 
 // ---------------------------------------------------------------------------------------------
@@ -1021,6 +1037,12 @@ func TestEngine(t *testing.T) {
 			seen := map[string]bool{}
 			for k := 0; k < *flagN; k++ {
 				runCatchupCase(rng, *flagThorough, out, st, seen)
+			}
+		case "leader":
+			st.Rule = "one real server made leader (by decree or through a won campaign against scripted peers) on a generated image (1, 2, 3, 3+non-voter or 5 voters; 1..6 entries, optional snapshot / compacted prefix; gap-tolerant or monotonic store, optional commit tracking; MaxAppendEntries 1 / 2 / 64), its real runLeader / leaderLoop running with every replication and heartbeat request parked in the harness transport; 4..13 [thorough: 6..29] stimuli: Apply (also with a failing StoreLogs), Barrier, bursts of 2..6 calls queued while the loop is busy, AddVoter / AddNonvoter / DemoteVoter / RemoveServer (own id included, stale prevIndex, calls waiting for the gate), VerifyLeader, a follower acknowledging / refusing / answering with a newer term, heartbeats answered yes / no / not at all, requests of other servers reaching the loop; after the leadership ends up to two more requests; every case is non-trivial (the no-op is dispatched)"
+			seen := map[string]bool{}
+			for k := 0; k < *flagN; k++ {
+				runLeaderCase(rng, *flagThorough, out, st, seen)
 			}
 		default:
 			t.Fatalf("unknown engine %s", *flagEngine)
